@@ -8,6 +8,13 @@
   with l ∉ R is evaluated under l :: R, which lowers live(R) by at least one and may reset the
   rank to at most N.  Between two such calls at most `hopFuel` units of fuel are spent (one per
   function, one per predecessor of a join, one per class scope of a scope chain).
+
+  COMPLETENESS of `Graph.ranked` (last section): if ANY rank is valid, the computed one is.  The
+  relaxation only raises ranks, and the rank of i stays at most the number of flows whose given
+  rank is smaller than i's (`Below`, `cnt`: no bound on the given rank is needed), hence ≤ #flows; each sweep but the last raises the sum of all ranks, which is bounded, so the iteration
+  stops at a sweep that changes nothing before its fuel runs out; in such a sweep every single
+  step changed nothing (steps are monotone), i.e. every rank inequality holds; the structural
+  part of the check does not depend on the rank.
 -/
 import SuppModel.Flow.Rank
 import SuppModel.Flow.LemmasPure
@@ -39,6 +46,8 @@ theorem preds_ok {g : Graph} {rk : Array Nat} (hv : validRank g rk = true) {f : 
   unfold validFlow at h
   rw [Bool.and_eq_true, flow?_id hf] at h
   have h2 := h.2
+  unfold validFlowU at h2
+  rw [flow?_id hf] at h2
   cases hps : fr.parents with
   | nil => exact absurd hps hne
   | cons a rest =>
@@ -58,8 +67,10 @@ theorem root_ok {g : Graph} {rk : Array Nat} (hv : validRank g rk = true) {f : N
       ∀ q, tgt = some q → (∃ fq, g.flow? q = some fq) ∧ rankOf rk q < rankOf rk f := by
   have h := validFlow_of hv hf
   unfold validFlow at h
-  rw [Bool.and_eq_true, flow?_id hf, hroot] at h
+  rw [Bool.and_eq_true, flow?_id hf] at h
   have h2 := h.2
+  unfold validFlowU at h2
+  rw [flow?_id hf, hroot] at h2
   simp only [] at h2
   cases ht : rootTarget g fr with
   | none => simp [ht] at h2
@@ -306,5 +317,405 @@ theorem namesAt_total {g : Graph} {rk : Array Nat} (hv : validRank g rk = true) 
   simp only [hf] at ht
   obtain ⟨p, hp, _⟩ := bind_eq_some' ht
   exact Option.isSome_iff_exists.mp (by unfold namesAt; simp [hf, hp])
+
+/-! ### completeness of the relaxation: if any rank is valid, the computed one is -/
+
+theorem rankOf_set (rk : Array Nat) (j v i : Nat) :
+    rankOf (rk.setIfInBounds j v) i = if j = i ∧ j < rk.size then v else rankOf rk i := by
+  unfold rankOf
+  rw [Array.getD_eq_getD_getElem?, Array.getD_eq_getD_getElem?, Array.getElem?_setIfInBounds]
+  by_cases h1 : j = i
+  · subst h1
+    by_cases h2 : j < rk.size
+    · simp [h2]
+    · have : rk[j]? = none := by simp; omega
+      simp [h2]
+  · simp [h1]
+
+/-- pointwise order on rank arrays of one size -/
+def RLe (a b : Array Nat) : Prop := a.size = b.size ∧ ∀ i, rankOf a i ≤ rankOf b i
+
+theorem RLe.refl (a : Array Nat) : RLe a a := ⟨rfl, fun _ => Nat.le_refl _⟩
+theorem RLe.trans {a b c : Array Nat} (h1 : RLe a b) (h2 : RLe b c) : RLe a c :=
+  ⟨h1.1.trans h2.1, fun i => Nat.le_trans (h1.2 i) (h2.2 i)⟩
+
+theorem rankOf_eq_getElem {a : Array Nat} {i : Nat} (h : i < a.size) : rankOf a i = a[i] := by
+  unfold rankOf; simp [h]
+
+theorem RLe.antisymm {a b : Array Nat} (h1 : RLe a b) (h2 : RLe b a) : a = b := by
+  refine Array.ext h1.1 ?_
+  intro i hi1 hi2
+  have e1 := h1.2 i
+  have e2 := h2.2 i
+  rw [rankOf_eq_getElem hi1, rankOf_eq_getElem hi2] at e1 e2
+  omega
+
+/-- the new value a step writes -/
+def stepVal (g : Graph) (rk : Array Nat) (fr : FlowRec) : Nat :=
+  (flowDeps g fr).foldl (fun m q => max m (rankOf rk q + 1)) (rankOf rk fr.id)
+
+theorem foldl_max_ge (rk : Array Nat) (l : List Nat) (m0 : Nat) :
+    m0 ≤ l.foldl (fun m q => max m (rankOf rk q + 1)) m0 ∧
+    ∀ q ∈ l, rankOf rk q + 1 ≤ l.foldl (fun m q => max m (rankOf rk q + 1)) m0 := by
+  induction l generalizing m0 with
+  | nil => exact ⟨Nat.le_refl _, fun q h => by cases h⟩
+  | cons a l ih =>
+    rw [List.foldl_cons]
+    obtain ⟨h1, h2⟩ := ih (max m0 (rankOf rk a + 1))
+    refine ⟨by omega, ?_⟩
+    intro q hq
+    rcases List.mem_cons.mp hq with rfl | hq
+    · omega
+    · exact h2 q hq
+
+theorem foldl_max_le (rk : Array Nat) (l : List Nat) (m0 B : Nat) (h0 : m0 ≤ B)
+    (h : ∀ q ∈ l, rankOf rk q + 1 ≤ B) : l.foldl (fun m q => max m (rankOf rk q + 1)) m0 ≤ B := by
+  induction l generalizing m0 with
+  | nil => exact h0
+  | cons a l ih =>
+    rw [List.foldl_cons]
+    refine ih _ ?_ (fun q hq => h q (List.mem_cons_of_mem _ hq))
+    have := h a List.mem_cons_self
+    omega
+
+theorem rankStep_ge (g : Graph) (rk : Array Nat) (fr : FlowRec) : RLe rk (rankStep g rk fr) := by
+  refine ⟨by unfold rankStep; rw [Array.size_setIfInBounds], ?_⟩
+  intro i
+  unfold rankStep
+  rw [rankOf_set]
+  split
+  · next h => rw [← h.1]; exact (foldl_max_ge rk (flowDeps g fr) _).1
+  · exact Nat.le_refl _
+
+theorem foldl_step_ge (g : Graph) (l : List FlowRec) (rk : Array Nat) :
+    RLe rk (l.foldl (rankStep g) rk) := by
+  induction l generalizing rk with
+  | nil => exact RLe.refl _
+  | cons a l ih => exact (rankStep_ge g rk a).trans (ih _)
+
+/-- a sweep that changes nothing: every single step changed nothing -/
+theorem steps_of_fixpoint (g : Graph) (l : List FlowRec) (rk : Array Nat)
+    (h : l.foldl (rankStep g) rk = rk) : ∀ fr ∈ l, rankStep g rk fr = rk := by
+  induction l with
+  | nil => intro fr hfr; cases hfr
+  | cons a l ih =>
+    rw [List.foldl_cons] at h
+    have h1 : rankStep g rk a = rk := by
+      have hge := foldl_step_ge g l (rankStep g rk a)
+      rw [h] at hge
+      exact (RLe.antisymm (rankStep_ge g rk a) hge).symm
+    rw [h1] at h
+    intro fr hfr
+    rcases List.mem_cons.mp hfr with rfl | hfr
+    · exact h1
+    · exact ih h fr hfr
+
+/-- what a decreasing rank says about the flows `fr` needs -/
+theorem deps_of_valid {g : Graph} {rk : Array Nat} {fr : FlowRec} (h : validFlowU g rk fr = true) :
+    ∀ q ∈ flowDeps g fr, (∃ fq, g.flow? q = some fq) ∧ rankOf rk q < rankOf rk fr.id := by
+  unfold validFlowU at h
+  unfold flowDeps
+  cases hps : fr.parents with
+  | nil =>
+    rw [hps] at h
+    simp only [] at h ⊢
+    cases ht : rootTarget g fr with
+    | none => intro q hq; cases hq
+    | some tgt =>
+      cases tgt with
+      | none => intro q hq; cases hq
+      | some q0 =>
+        simp only [ht, Bool.and_eq_true, decide_eq_true_eq] at h
+        intro q hq
+        rcases List.mem_singleton.mp hq with rfl
+        exact ⟨Option.isSome_iff_exists.mp h.1, h.2⟩
+  | cons a rest =>
+    rw [hps] at h
+    simp only [List.all_eq_true] at h
+    intro q hq
+    obtain ⟨p, hp, he⟩ := List.mem_filterMap.mp hq
+    have := h p hp
+    cases p with
+    | flow q' =>
+      simp only [Option.some.injEq] at he
+      subst he
+      simp only [Bool.and_eq_true, decide_eq_true_eq] at this
+      exact ⟨Option.isSome_iff_exists.mp this.1, this.2⟩
+    | loop l t => simp at he
+
+/-- the structural part of the check does not depend on the rank -/
+theorem valid_transfer {g : Graph} {rk rc : Array Nat} {fr : FlowRec} (h : validFlowU g rk fr = true)
+    (hle : rankOf rc fr.id ≤ g.flows.length)
+    (hd : ∀ q ∈ flowDeps g fr, rankOf rc q < rankOf rc fr.id) : validFlow g rc fr = true := by
+  unfold validFlow
+  rw [Bool.and_eq_true, decide_eq_true_eq]
+  refine ⟨hle, ?_⟩
+  unfold validFlowU at h ⊢
+  unfold flowDeps at hd
+  cases hps : fr.parents with
+  | nil =>
+    rw [hps] at h hd
+    simp only [] at h hd ⊢
+    cases ht : rootTarget g fr with
+    | none => simp [ht] at h
+    | some tgt =>
+      cases tgt with
+      | none => rfl
+      | some q0 =>
+        simp only [ht, Bool.and_eq_true, decide_eq_true_eq] at h hd ⊢
+        exact ⟨h.1, hd q0 (List.mem_singleton.mpr rfl)⟩
+  | cons a rest =>
+    rw [hps] at h hd
+    simp only [List.all_eq_true] at h ⊢
+    intro p hp
+    have := h p hp
+    cases p with
+    | flow q' =>
+      simp only [Bool.and_eq_true, decide_eq_true_eq] at this ⊢
+      exact ⟨this.1, hd q' (List.mem_filterMap.mpr ⟨Parent.flow q', hp, rfl⟩)⟩
+    | loop l t => exact this
+
+theorem filter_length_mono {α} (l : List α) (p p' : α → Bool)
+    (himp : ∀ x, p x = true → p' x = true) : (l.filter p).length ≤ (l.filter p').length := by
+  induction l with
+  | nil => simp
+  | cons x l ih =>
+    rw [List.filter_cons, List.filter_cons]
+    by_cases hp : p x = true
+    · rw [if_pos hp, if_pos (himp x hp)]
+      simp only [List.length_cons]; omega
+    · rw [if_neg hp]
+      by_cases hp' : p' x = true
+      · rw [if_pos hp']; simp only [List.length_cons]; omega
+      · rw [if_neg hp']; exact ih
+
+theorem filter_length_lt {α} (l : List α) (p p' : α → Bool)
+    (himp : ∀ x, p x = true → p' x = true) {a : α} (ha : a ∈ l) (h1 : p a = false)
+    (h2 : p' a = true) : (l.filter p).length + 1 ≤ (l.filter p').length := by
+  induction l with
+  | nil => cases ha
+  | cons x l ih =>
+    rw [List.filter_cons, List.filter_cons]
+    rcases List.mem_cons.mp ha with rfl | ha
+    · rw [if_neg (by rw [h1]; exact Bool.false_ne_true), if_pos h2]
+      have := filter_length_mono l p p' himp
+      simp only [List.length_cons]; omega
+    · have := ih ha
+      by_cases hp : p x = true
+      · rw [if_pos hp, if_pos (himp x hp)]
+        simp only [List.length_cons]; omega
+      · rw [if_neg hp]
+        by_cases hp' : p' x = true
+        · rw [if_pos hp']; simp only [List.length_cons]; omega
+        · rw [if_neg hp']; exact this
+
+/-- how many flows have a strictly smaller rank (for the given decreasing rank `rv`) than id i:
+    a bound for the longest-path rank of i -/
+def cnt (g : Graph) (rv : Array Nat) (i : Nat) : Nat :=
+  (g.flows.filter (fun x => decide (rankOf rv x.id < rankOf rv i))).length
+
+theorem cnt_le (g : Graph) (rv : Array Nat) (i : Nat) : cnt g rv i ≤ g.flows.length :=
+  List.length_filter_le _ _
+
+theorem cnt_lt {g : Graph} {rv : Array Nat} {q i : Nat} {fq : FlowRec} (hq : g.flow? q = some fq)
+    (hlt : rankOf rv q < rankOf rv i) : cnt g rv q + 1 ≤ cnt g rv i := by
+  unfold cnt
+  refine filter_length_lt g.flows _ _ ?_ (List.mem_of_find?_eq_some hq) ?_ ?_
+  · intro x hx
+    simp only [decide_eq_true_eq] at hx ⊢
+    omega
+  · rw [flow?_id hq]; simp
+  · rw [flow?_id hq]; simpa using hlt
+
+/-- the invariant of the relaxation: the rank of i is at most the number of flows below i -/
+def Below (g : Graph) (rv rk : Array Nat) : Prop := ∀ i, rankOf rk i ≤ cnt g rv i
+
+theorem below_step {g : Graph} {rv rk : Array Nat} (hv : validRankU g rv = true) {fr : FlowRec}
+    (hfr : fr ∈ g.flows) (hb : Below g rv rk) : Below g rv (rankStep g rk fr) := by
+  have hvf : validFlowU g rv fr = true := by
+    unfold validRankU at hv; rw [List.all_eq_true] at hv; exact hv fr hfr
+  have hdeps := deps_of_valid hvf
+  intro i
+  unfold rankStep
+  rw [rankOf_set]
+  split
+  · next h =>
+    rw [← h.1]
+    exact foldl_max_le rk _ _ _ (hb fr.id) (fun q hq => by
+      obtain ⟨⟨fq, hfq⟩, hlt⟩ := hdeps q hq
+      have := cnt_lt hfq hlt
+      have := hb q
+      omega)
+  · exact hb i
+
+theorem below_foldl {g : Graph} {rv : Array Nat} (hv : validRankU g rv = true) (l : List FlowRec)
+    (hl : ∀ fr ∈ l, fr ∈ g.flows) (rk : Array Nat) (hb : Below g rv rk) :
+    Below g rv (l.foldl (rankStep g) rk) := by
+  induction l generalizing rk with
+  | nil => exact hb
+  | cons a l ih =>
+    rw [List.foldl_cons]
+    exact ih (fun fr h => hl fr (List.mem_cons_of_mem _ h)) _
+      (below_step hv (hl a List.mem_cons_self) hb)
+
+/-! the potential: the sum of all ranks -/
+
+theorem list_sum_pointwise : ∀ (l1 l2 : List Nat), l1.length = l2.length →
+    (∀ i, l1.getD i 0 ≤ l2.getD i 0) → l1.sum ≤ l2.sum ∧ (l1 ≠ l2 → l1.sum < l2.sum) := by
+  intro l1
+  induction l1 with
+  | nil =>
+    intro l2 hl _
+    cases l2 with
+    | nil => exact ⟨Nat.le_refl _, fun h => absurd rfl h⟩
+    | cons _ _ => simp at hl
+  | cons a l1 ih =>
+    intro l2 hl h
+    cases l2 with
+    | nil => simp at hl
+    | cons b l2 =>
+      simp only [List.length_cons, Nat.add_right_cancel_iff] at hl
+      have h0 : a ≤ b := by simpa using h 0
+      have hrest : ∀ i, l1.getD i 0 ≤ l2.getD i 0 := by
+        intro i; simpa using h (i + 1)
+      obtain ⟨i1, i2⟩ := ih l2 hl hrest
+      simp only [List.sum_cons]
+      refine ⟨by omega, ?_⟩
+      intro hne
+      by_cases hab : a = b
+      · subst hab
+        have : l1 ≠ l2 := fun e => hne (by rw [e])
+        have := i2 this
+        omega
+      · omega
+
+theorem list_sum_le_bound : ∀ (l : List Nat) (N : Nat), (∀ i, l.getD i 0 ≤ N) →
+    l.sum ≤ l.length * N := by
+  intro l N
+  induction l with
+  | nil => intro _; simp
+  | cons a l ih =>
+    intro h
+    have h0 : a ≤ N := by simpa using h 0
+    have := ih (fun i => by simpa using h (i + 1))
+    simp only [List.sum_cons, List.length_cons, Nat.succ_mul]
+    omega
+
+def rsum (a : Array Nat) : Nat := a.toList.sum
+
+theorem rankOf_toList (a : Array Nat) (i : Nat) : rankOf a i = a.toList.getD i 0 := by
+  simp [rankOf]
+
+theorem rsum_lt {a b : Array Nat} (h : RLe a b) (hne : a ≠ b) : rsum a < rsum b := by
+  have := list_sum_pointwise a.toList b.toList (by simpa using h.1)
+    (fun i => by rw [← rankOf_toList, ← rankOf_toList]; exact h.2 i)
+  exact this.2 (fun e => hne (by cases a; cases b; simp_all))
+
+theorem rsum_le_bound {g : Graph} {rv a : Array Nat} (h : Below g rv a) :
+    rsum a ≤ a.size * g.flows.length := by
+  have := list_sum_le_bound a.toList g.flows.length (fun i => by rw [← rankOf_toList]; exact Nat.le_trans (h i) (cnt_le g rv i))
+  unfold rsum
+  simpa using this
+
+theorem no_overflow {g : Graph} {rv a : Array Nat} (h : Below g rv a) :
+    a.any (fun r => decide (g.flows.length < r)) = false := by
+  cases hc : a.any (fun r => decide (g.flows.length < r)) with
+  | false => rfl
+  | true =>
+    obtain ⟨i, hi, hp⟩ := Array.any_eq_true.mp hc
+    have := Nat.le_trans (h i) (cnt_le g rv i)
+    rw [rankOf_eq_getElem hi] at this
+    simp only [decide_eq_true_eq] at hp
+    omega
+
+/-- the iteration ends at a fixpoint that is still below the valid rank -/
+theorem rankIter_fix {g : Graph} {rv : Array Nat} (hv : validRankU g rv = true) :
+    ∀ k rk, Below g rv rk → rk.size * g.flows.length - rsum rk < k →
+      rankRound g (rankIter g k rk) = rankIter g k rk ∧ Below g rv (rankIter g k rk) ∧
+        (rankIter g k rk).size = rk.size := by
+  intro k
+  induction k with
+  | zero => intro rk _ h; omega
+  | succ k ih =>
+    intro rk hb hk
+    rw [rankIter]
+    have hb' : Below g rv (rankRound g rk) := below_foldl hv g.flows (fun _ h => h) rk hb
+    have hge : RLe rk (rankRound g rk) := foldl_step_ge g g.flows rk
+    simp only [no_overflow hb', Bool.or_false]
+    by_cases he : rankRound g rk = rk
+    · have : (rankRound g rk == rk) = true := by simp [he]
+      rw [if_pos this]
+      exact ⟨by rw [he, he], hb', hge.1.symm⟩
+    · have : ¬ ((rankRound g rk == rk) = true) := by simpa using he
+      rw [if_neg this]
+      have h1 := rsum_lt hge (fun e => he e.symm)
+      have h2 := rsum_le_bound hb'
+      obtain ⟨r1, r2, r3⟩ := ih _ hb' (by rw [← hge.1] at h2 ⊢; omega)
+      exact ⟨r1, r2, r3.trans hge.1.symm⟩
+
+theorem le_foldl_max (l : List Nat) (m0 : Nat) :
+    m0 ≤ l.foldl max m0 ∧ ∀ x ∈ l, x ≤ l.foldl max m0 := by
+  induction l generalizing m0 with
+  | nil => exact ⟨Nat.le_refl _, fun x h => by cases h⟩
+  | cons a l ih =>
+    rw [List.foldl_cons]
+    obtain ⟨h1, h2⟩ := ih (max m0 a)
+    refine ⟨by omega, ?_⟩
+    intro x hx
+    rcases List.mem_cons.mp hx with rfl | hx
+    · omega
+    · exact h2 x hx
+
+/-- COMPLETENESS: if any rank decreases along every call - no bound on its values required -
+    the computed rank is valid (and bounded by #flows) -/
+theorem ranked_of_validRankU (g : Graph) (rk : Array Nat) (h : validRankU g rk = true) :
+    g.ranked = true := by
+  unfold Graph.ranked computeRank
+  simp only []
+  have hb0 : Below g rk (Array.replicate ((g.flows.map (·.id)).foldl max 0 + 1) 0) := by
+    intro i
+    have : rankOf (Array.replicate ((g.flows.map (·.id)).foldl max 0 + 1) 0) i = 0 := by
+      unfold rankOf
+      rw [Array.getD_eq_getD_getElem?, Array.getElem?_replicate]
+      split <;> rfl
+    rw [this]
+    exact Nat.zero_le _
+  obtain ⟨hfix, hbelow, hsize⟩ := rankIter_fix h
+    (((g.flows.map (·.id)).foldl max 0 + 1) * g.flows.length + 1) _ hb0
+    (by rw [Array.size_replicate]; omega)
+  rw [Array.size_replicate] at hsize
+  generalize rankIter g _ _ = rc at hfix hbelow hsize
+  have hsteps := steps_of_fixpoint g g.flows rc hfix
+  unfold validRankU at h
+  unfold validRank
+  rw [List.all_eq_true] at h ⊢
+  intro fr hfr
+  refine valid_transfer (h fr hfr) (Nat.le_trans (hbelow fr.id) (cnt_le g rk fr.id)) ?_
+  intro q hq
+  have hstep := hsteps fr hfr
+  have hv : rankOf (rankStep g rc fr) fr.id = rankOf rc fr.id := by rw [hstep]
+  unfold rankStep at hv
+  rw [rankOf_set] at hv
+  have hin : fr.id < rc.size := by
+    have := (le_foldl_max (g.flows.map (·.id)) 0).2 fr.id (List.mem_map_of_mem hfr)
+    omega
+  rw [if_pos ⟨rfl, hin⟩] at hv
+  have := (foldl_max_ge rc (flowDeps g fr) (rankOf rc fr.id)).2 q hq
+  omega
+
+theorem validRankU_of_validRank {g : Graph} {rk : Array Nat} (h : validRank g rk = true) :
+    validRankU g rk = true := by
+  unfold validRank at h
+  unfold validRankU
+  rw [List.all_eq_true] at h ⊢
+  intro fr hfr
+  have := h fr hfr
+  unfold validFlow at this
+  rw [Bool.and_eq_true] at this
+  exact this.2
+
+theorem ranked_of_validRank (g : Graph) (rk : Array Nat) (h : validRank g rk = true) :
+    g.ranked = true :=
+  ranked_of_validRankU g rk (validRankU_of_validRank h)
 
 end SuppModel.Flow
